@@ -22,6 +22,22 @@ CLAIMED = {
   text="Seeded search over (argument count up to 600000, length distribution, RLIMIT_STACK, environment size and shape, -n/-s) with every invocation passed through to a real fork+execve of /bin/true under exactly the stack limit and environment the code under test computed against: the injected fault is the kernel answering E2BIG, so the judge of 'accepted by exec' is this kernel, not a model. The history must also show every argument delivered once in order, and an argument that cannot be passed at all reported with exit 1 and never handed to exec.",
   note="Trusted: the Linux per-argument and budget rules are used only to classify which single arguments cannot be passed at all (with a gray zone around the POSIX headroom); stdin is a stub; fork/exec/wait are real.",
   tech=TECH+"randomised OS-budget knobs (RLIMIT_STACK, environment) with real execve as the failing system call; history oracle over the spawn log"),
+ "C07": dict(
+  text="Two real programs joined by a simulated pipe in one process: find_main ... -print0 (or -print) writes through a sink that accepts short counts and raises EINTR; the accepted byte stream becomes the stdin of xargs_main -0 CMD through a reader that re-cuts it independently of the writer (1-byte, odd sizes, whole buffers, EINTR every k-th read), with optional -n and failing children. Trees are real, with names over arbitrary valid UTF-8 (blank-only, leading '-', newlines, quotes, backslashes, {}, $(), globs, multi-byte, up to 250 bytes). Oracle: the stream equals the concatenation over an independent reference walk, byte for byte; the arguments received over all invocations equal the record list exactly once and in order.",
+  note="Trusted: the reference walker; the argument that a FIFO, lossless pipe between two sequential programs can only vary where the stream is cut, so sequential composition with all cuts under seed control covers every observable interleaving.",
+  tech=TECH+"simulated pipe between in-process find and xargs: seeded short writes/EINTR on the writer side, independent re-chunking/EINTR on the reader side"),
+ "C08": dict(
+  text="Seeded search over trees (long names force multi-kilobyte paths), expressions placing `-exec/-execdir CMD FIXED {} +` plainly, in parentheses, under '!', on either side of -o, in a ',' list, before `-name X -quit`, with -depth, under fault sequences (any subset of invocations failing: exit != 0, signal, spawn error) and knobs that shrink argmax's real budget (RLIMIT_STACK 512 KiB plus ~100 KB of environment) so that small trees need several batches. Oracle over the interleaved history of output records and spawns: conservation and order of paths, one directory and ./basename per -execdir invocation with the right cwd, nothing pending at exit (incl. after -quit), OS acceptability (formula, confirmed by real execve), action always true, exit status non-zero iff an invocation failed.",
+  note="Trusted: the marker-before-action observation of 'reached', the H3 seam; fork/exec is stubbed except for the E2BIG confirmation.",
+  tech=TECH+"scripted child-failure subsets x argument-budget knobs; history oracle over interleaved sink records and spawn requests"),
+ "C09": dict(
+  text="Seeded search over hostile file names and argument templates (0/1/several {} per argument, {} embedded in text, operator look-alikes) for -exec/-execdir ... ; with the child-outcome script as fault sequence (exit 0..255, signals, ENOENT/EACCES/ENOMEM/E2BIG) and, in a quarter of the runs, children that change the tree they run on (unlink the file, remove/replace the directory about to be entered, create siblings, rename) at scripted spawn instants. Oracle over the interleaved history: exactly one spawn per reached entry at that point, exact substituted argv (./basename + parent cwd for -execdir), truth marker iff exit 0, find's status unaffected, unrelated entries still visited exactly once after a mutation, no panic or hang.",
+  note="Trusted: marker-based observation of 'reached', substitution reference (10 lines), the H2 seam. -P only.",
+  tech=TECH+"scripted child outcomes and tree-mutating children at spawn instants; history oracle over interleaved records and spawns"),
+ "C10": dict(
+  text="Twin sandboxes A and B with identical real trees (incl. an outside area and links into it): `find ROOTS -depth EXPR -print0` on A defines the expected set and order (itself checked against an independent reference post-order), `find ROOTS EXPR -print0 -delete -printf MARK` then runs on A, and a reference executor applies the statement's rule (lstat: real directory -> rmdir, else unlink) to B path by path, replaying the scripted racing mutations at the same instants. Injected faults: ENOTEMPTY, EACCES (parent 0555 under a dropped uid), ENOENT and refilled directories from a racing process acting between marker and action. Oracle: same entries in the same order, -delete true exactly where the reference removal succeeded, full snapshots of A and B equal (inside and outside the starting points), exit status and one diagnostic per failure.",
+  note="Trusted: the kernel's unlink/rmdir as model of itself, the snapshot function, the reference post-order. Tests whose value the deletions change (-empty, -newer, -size, -links) are excluded; self-interfering -L/-H scenarios are detected and not judged. One walkdir defect is a known finding.",
+  tech=TECH+"twin real trees, failing removals from permissions and a scripted racing mutator between marker and action; world-state conservation against a reference executor"),
  "C15": dict(
   text="The clock is the injected seam (Dependencies::now): seeded scenarios place `now` at timestamp + k*period + eps for period 60 s / 86400 s, k up to 20000 and eps in {-1 s, -1 ns, 0, +1 ns, +1 s, sub-second}, decades away from the wall clock so that any read of the real clock is visible; atime/mtime are set independently at nanosecond resolution, ctime-relative scenarios are anchored to the real ctime read back with lstat; all of -{a,c,m}time, -{a,c,m}min with N/+N/-N, -newer, -anewer, -cnewer and the nine -newerXY are judged by exact integer-nanosecond arithmetic on the lstat records.",
   note="Trusted: the reference arithmetic (20 lines), lstat. Only ages >= 0 and only regular files, as the statement is quantified.",
@@ -47,8 +63,7 @@ NA = {
  "C17":"equality of two regular languages; pure",
  "C18":"relational statement over argv and file contents; its error-isolation clause is exercised inside C02",
 }
-PENDING = {k: "claimed in DESIGN.md; check still under construction (not yet registered)" for k in
-           ["C07","C08","C09","C10"]}
+PENDING = {}
 
 def main():
     checks = []
